@@ -21,6 +21,7 @@
  */
 #include <cstdint>
 #include <cstring>
+#include <functional>
 #include <string>
 #include <vector>
 
@@ -542,6 +543,143 @@ namespace {
 
 }  // namespace
 
+// ------------------------------------------------------------ custom mutator
+extern "C" std::size_t LLVMFuzzerMutate(std::uint8_t* data, std::size_t size, std::size_t maxSize);
+
+/*!
+ * half of the time a token level mutation (same-class replacement, insertion of `op atom`,
+ * of a balanced pair of parentheses, of a function call around a token range, deletion,
+ * duplication), so that a useful share of the inputs gets past the tokeniser and the group
+ * reducer; else libFuzzer's own byte level mutations (dictionary included).
+ */
+extern "C" std::size_t LLVMFuzzerCustomMutator(std::uint8_t* data, std::size_t size, std::size_t maxSize, unsigned int seed) {
+  std::uint64_t st = seed * 0x9E3779B97F4A7C15ull + 0x1234567ull;
+  auto rnd = [&st](const std::size_t n) {
+    st = st * 6364136223846793005ull + 1442695040888963407ull;
+    return n == 0 ? std::size_t(0) : static_cast<std::size_t>((st >> 33) % n);
+  };
+  const auto mode = rnd(3);
+  if (mode == 0 || (size == 0 && mode != 1)) return LLVMFuzzerMutate(data, size, maxSize);
+  std::string in(reinterpret_cast<const char*>(data), size);
+  if (mode == 1) {
+    // a fresh well formed formula (documented language), then one token level mutation half of the time
+    std::function<std::string(int)> ex = [&](const int d) -> std::string {
+      static const char* leaves[] = {"x", "y", "z", "1", "2", "0.5", "1.5e-1", "3.", ".25", "Cste::R", "x", "y"};
+      if (d <= 0 || rnd(4) == 0) return leaves[rnd(12)];
+      switch (rnd(12)) {
+        case 0: return ex(d - 1) + "+" + ex(d - 1);
+        case 1: return ex(d - 1) + "-" + ex(d - 1);
+        case 2: return ex(d - 1) + "*" + ex(d - 1);
+        case 3: return ex(d - 1) + "/" + ex(d - 1);
+        case 4: return "(" + ex(d - 1) + ")";
+        case 5: return "-" + ex(d - 1);
+        case 6: return std::string(leaves[rnd(12)]) + "**" + (rnd(2) ? "-" : "") + std::to_string(rnd(19));
+        case 7: {
+          const auto& f = east::funs1();
+          return std::string(f[rnd(f.size())].name) + "(" + ex(d - 1) + ")";
+        }
+        case 8: return std::string(east::fun2name(static_cast<int>(rnd(4)))) + "(" + ex(d - 1) + "," + ex(d - 1) + ")";
+        case 9: return "power<" + std::to_string(1 + rnd(16)) + ">(" + ex(d - 1) + ")";
+        case 10: return ex(d - 1) + "*-" + leaves[rnd(12)];
+        default: return "(" + ex(d - 1) + ")**" + leaves[rnd(12)];
+      }
+    };
+    static const char* cm[] = {"==", "<", "<=", ">", ">="};
+    std::string f = ex(1 + static_cast<int>(rnd(4)));
+    if (rnd(4) == 0) {
+      std::string c = ex(1) + cm[rnd(5)] + ex(1);
+      if (rnd(3) == 0) c += (rnd(2) ? "&&" : "||") + ex(1) + cm[rnd(5)] + ex(1);
+      if (rnd(5) == 0) c = "!(" + c + ")";
+      f = c + "?" + f + ":" + ex(2);
+    }
+    if (rnd(2) == 0) {
+      if (f.size() > maxSize) f.resize(maxSize);
+      std::memcpy(data, f.data(), f.size());
+      return f.size();
+    }
+    in = f;
+  }
+  std::vector<Tok> t;
+  lex(in, t);
+  if (t.empty()) return LLVMFuzzerMutate(data, size, maxSize);
+  static const char* atoms[] = {"x", "y", "z", "1", "2", "0", "0.5", "1.5e-1", "3.", ".25", "16", "17", "Cste::R", "Cste::kb", "(x+1)", "(y-z)"};
+  static const char* ops[] = {"+", "-", "*", "/", "**", "*-", "/-", "**-"};
+  static const char* cmps[] = {"==", "<", "<=", ">", ">="};
+  auto fname = [&]() -> std::string {
+    const auto& f = east::funs1();
+    const auto k = rnd(f.size() + 6);
+    if (k < f.size()) return f[k].name;
+    if (k < f.size() + 4) return east::fun2name(static_cast<int>(k - f.size()));
+    return k == f.size() + 4 ? "power<3>" : "power<-2>";
+  };
+  std::vector<std::string> o;
+  for (const auto& k : t) o.push_back(k.s);
+  const auto pos = rnd(o.size());
+  switch (rnd(9)) {
+    case 0:  // same class replacement
+      if (t[pos].k == NUM || t[pos].k == ID) {
+        o[pos] = atoms[rnd(16)];
+      } else if (t[pos].k == OP) {
+        o[pos] = ops[rnd(5)];
+      } else if (t[pos].k == CMP) {
+        o[pos] = cmps[rnd(5)];
+      } else if (t[pos].k == AND || t[pos].k == OR) {
+        o[pos] = rnd(2) ? "&&" : "||";
+      } else {
+        o[pos] = atoms[rnd(16)];
+      }
+      break;
+    case 1:  // op atom after a token
+      o.insert(o.begin() + pos + 1, {ops[rnd(8)], atoms[rnd(16)]});
+      break;
+    case 2: {  // balanced parentheses around a range
+      const auto e = pos + rnd(o.size() - pos) + 1;
+      o.insert(o.begin() + e, ")");
+      o.insert(o.begin() + pos, "(");
+      break;
+    }
+    case 3: {  // function call around a range
+      const auto e = pos + rnd(o.size() - pos) + 1;
+      const auto f = fname();
+      const bool two = f == "max" || f == "min" || f == "hypot" || f == "atan2";
+      o.insert(o.begin() + e, two ? std::string(",") + atoms[rnd(16)] + ")" : ")");
+      o.insert(o.begin() + pos, f + "(");
+      break;
+    }
+    case 4:  // deletion
+      o.erase(o.begin() + pos);
+      break;
+    case 5: {  // duplication of a range
+      const auto e = pos + rnd(o.size() - pos) + 1;
+      std::vector<std::string> r(o.begin() + pos, o.begin() + e);
+      o.insert(o.begin() + rnd(o.size() + 1), r.begin(), r.end());
+      break;
+    }
+    case 6: {  // conditional around everything
+      std::vector<std::string> r = {atoms[rnd(16)], cmps[rnd(5)], atoms[rnd(16)], rnd(3) ? "?" : "&&x>0?"};
+      r.insert(r.end(), o.begin(), o.end());
+      r.push_back(":");
+      r.push_back(atoms[rnd(16)]);
+      o = r;
+      break;
+    }
+    case 7:  // unary minus / not
+      o.insert(o.begin() + pos, rnd(4) ? "-" : "!");
+      break;
+    default:  // swap two tokens
+      std::swap(o[pos], o[rnd(o.size())]);
+  }
+  std::string out;
+  const bool spaces = rnd(4) == 0;
+  for (const auto& w : o) {
+    if (!out.empty() && (spaces || (std::isalnum(static_cast<unsigned char>(out.back())) && std::isalnum(static_cast<unsigned char>(w[0]))))) out += ' ';
+    out += w;
+  }
+  if (out.size() > maxSize) out.resize(maxSize);
+  std::memcpy(data, out.data(), out.size());
+  return out.size();
+}
+
 extern "C" int LLVMFuzzerTestOneInput(const std::uint8_t* data, std::size_t size) {
   fuzzstats::Scope sc(data, size);
   if (size > 300) return 0;
@@ -644,6 +782,8 @@ extern "C" int LLVMFuzzerTestOneInput(const std::uint8_t* data, std::size_t size
   sc.tag("strict.accepted");
   if (!accepted) {
     sc.tag("strict.accepted_lib.rejected");
+    static const bool dump = std::getenv("VERIF_FUZZ_DUMP") != nullptr;
+    if (dump) std::fprintf(stderr, "STRICT-ACCEPTED-LIB-REJECTED %s\t=> %s\n", s.c_str(), what.c_str());
     return 0;
   }
   if (!evaluated) return 0;
